@@ -21,7 +21,7 @@ func init() {
 	Registry["C13"] = Spec{
 		Fn:          c13,
 		Level:       "fault_enumeration",
-		Rule:        "configurations: client revision x server revision over every feature-threshold neighbour (all pairs in thorough, a covering sample in quick) x credentials/database/quota-key strings (empty, long, non-UTF8) x Connect and Dial. Answers: hello; hello delayed by 1..5 read-deadline expiries (far below the handshake timeout); exception chain; every other server packet kind; garbage; the hello cut after every byte (then EOF or reset); immediate EOF; silence until a short handshake timeout. Oracle: after success the follow-up query is parsed by the reference codec at min(c,s), a Progress packet encoded at min(c,s) is decoded exactly, ServerInfo() equals the hello (fields gated by the client's revision), the addendum is present iff min(c,s) >= 54458, hello fields are as configured; after failure: non-nil error (carrying the exception), nil client, a dialed connection closed, no library goroutine left. Non-trivial = c != s or a failing answer; distinct = (c, s, answer kind)",
+		Rule:        "configurations: client revision x server revision over every feature-threshold neighbour (all pairs in thorough, a covering sample in quick) x credentials/database/quota-key strings (empty, long, non-UTF8) x Connect and Dial. Answers: hello; hello delayed by 1..5 read-deadline expiries (far below the handshake timeout); exception chain; every other server packet kind; garbage; the hello cut after every byte (then EOF or reset); immediate EOF; silence until a short handshake timeout. Oracle: after success the follow-up query is parsed by the reference codec at min(c,s), a Progress packet encoded at min(c,s) is decoded exactly, ServerInfo() equals the hello (fields gated by the client's revision), the addendum is present iff min(c,s) >= 54458 and has reached the server when Connect/Dial returns (before any later request), hello fields are as configured; after failure: non-nil error (carrying the exception), nil client, a dialed connection closed, no library goroutine left. Non-trivial = c != s or a failing answer; distinct = (c, s, answer kind)",
 		Assumptions: []string{"handshake timeouts are real but short (150 ms) and only the returned error / closed state is judged, never elapsed time"},
 		MinDistinct: 200,
 	}
@@ -144,6 +144,7 @@ func c13Success(r *core.Run, ci int64, rng *rand.Rand, crev, srev int, dial bool
 	var err error
 	var gotProg *proto.Progress
 	var derr, perr error
+	var atReturn []string
 	ok := runWithWatchdog(40*time.Second, func() {
 		if dial {
 			opt.Dialer = &simDialer{mk: func(int) (*simnet.Conn, error) { return sim.Conn, nil }}
@@ -153,6 +154,10 @@ func c13Success(r *core.Run, ci int64, rng *rand.Rand, crev, srev int, dial bool
 		}
 		if err != nil {
 			return
+		}
+		// what the server has received at the moment the handshake reports success
+		for _, p := range sim.Srv.Packets {
+			atReturn = append(atReturn, p.Kind)
 		}
 		perr = client.Ping(ctx)
 		derr = client.Do(ctx, ch.Query{Body: "SELECT 1", QuotaKey: "qk", OnProgress: func(ctx context.Context, p proto.Progress) error {
@@ -200,6 +205,13 @@ func c13Success(r *core.Run, ci int64, rng *rand.Rand, crev, srev int, dial bool
 	var kinds []string
 	for _, p := range sim.Srv.Packets {
 		kinds = append(kinds, p.Kind)
+	}
+	wantAtReturn := "hello"
+	if neg >= ref.RevQuotaKeyAddendum {
+		wantAtReturn = "hello addendum"
+	}
+	if got := strings.Join(atReturn, " "); got != wantAtReturn {
+		fail("handshake-incomplete-at-return", fmt.Sprintf("when Connect/Dial returned the server had received [%s], expected [%s] at negotiated revision %d", got, wantAtReturn, neg))
 	}
 	hasAdd := len(kinds) > 1 && kinds[1] == "addendum"
 	if hasAdd != (neg >= ref.RevQuotaKeyAddendum) {
